@@ -55,7 +55,13 @@ func (p *PauseController) UnmarshalJSON(data []byte) error {
 		return err
 	}
 
-	switch p.State {
+	// Re-apply the persisted state starting from a running controller, so that
+	// everything that goes along with that state (such as the channel that
+	// paused requests wait on) is set up as well.
+	state := p.State
+	p.State = PauseStateRunning
+
+	switch state {
 	case PauseStateRunning:
 		p.Resume()
 	case PauseStatePaused:
